@@ -33,6 +33,8 @@ type Peer struct {
 	ExtraHeader []fixwire.Field
 	// ExplicitNoReset: Logons that do not ask for a reset say so (ResetSeqNumFlag=N) instead of leaving the field out
 	ExplicitNoReset bool
+	// NextExpected: when set, every Logon carries NextExpectedMsgSeqNum (789) with this value
+	NextExpected func() int
 	// Overfill: a gap fill at the end of a bounded replay also covers the administrative messages that follow the range
 	Overfill bool
 }
@@ -131,6 +133,9 @@ func (p *Peer) LogonBody(heartBt int, reset bool) []fixwire.Field {
 	}
 	if p.Begin == "FIXT.1.1" {
 		b = append(b, fixwire.F(1137, "9"))
+	}
+	if p.NextExpected != nil && !reset {
+		b = append(b, fixwire.F(789, strconv.Itoa(p.NextExpected())))
 	}
 	return b
 }
